@@ -500,9 +500,8 @@ def run_tools_check(bindir, refdrv, seed, n_random, workdir):
                  expected_len=len(expected), actual_len=len(actual),
                  expected_at=expected[o:o + 16].hex(), actual_at=actual[o:o + 16].hex(), **info)
             bad = True
-        if c.data and c.whole() and actual == c.data[:c.whole()]:
-            fail(tool, argv, "output equals input (nothing was encrypted)", **info)
-            bad = True
+        # (no "output equals input" heuristic: for a short file that happens with probability 256^-n on a correct
+        #  tool; the comparison with the reference above already decides)
 
         # ---- round trip on the tool's own output
         argv2 = [exe[tool]] + flip_opts(c) + [outp, rtp]
